@@ -149,6 +149,90 @@ def run(F, chk):
         re_.ok("Server.shutting_down takers", sd.where(), "only shut_down_sessions takes the pending SoftStop id", nontrivial=False)
     else:
         re_.broke("no take() of Server.shutting_down found")
+    fd_order_rule(F, chk)
+
+
+def fd_order_rule(F, chk):
+    """R-C10-f: listener hand-over ships one flat FD array plus per-class address lists; the receiver pairs address i of a
+    class with the FD found at the class's offset.  Necessary condition of `every listener ends up bound to the address
+    it had`: the order in which send_listeners appends the classes' descriptors equals the order in which
+    receive_listeners cuts the array into per-class windows."""
+    r = chk.rule("R-C10-f", "T7", "sender and receiver agree on the order of listener classes in the FD array", floor=1)
+    SCM = "sozu_command_lib::scm_socket::ScmSocket"
+    LST = "sozu_command_lib::scm_socket::Listeners"
+    LC = "sozu_command_lib::proto::command::ListenersCount"
+    classes = [f["name"] for f in F.fields(LST)]
+    if not r.require(F.has(SCM + "::send_listeners") and F.has(SCM + "::receive_listeners"), "send_listeners / receive_listeners not found"):
+        return
+    sb = lib.flat(F, F.body(SCM + "::send_listeners"), keep=("::send_msg_and_fds",))
+    rb = lib.flat(F, F.body(SCM + "::receive_listeners"), keep=("::receive_msg_and_fds",))
+    r.fn(sb.path, rb.path)
+    dom_s, dom_r = sb.dominators(), rb.dominators()
+    # ---- sender: reads of Listeners.<class> that flow into the FD argument of send_msg_and_fds
+    sends = [(bi, t) for bi, t in sb.calls() if callee_of(t).endswith("::send_msg_and_fds")]
+    if not r.require(len(sends) == 1, "send_listeners: send_msg_and_fds call not found"):
+        return
+    fdarg = sends[0][1]["args"][-1]
+    fd_slice = guards.slice_of_operand(sb, fdarg)["locals"]
+    reads = []
+    for bi, si, st in sb.stmts():
+        rv = st.get("rv")
+        if not rv or not isinstance(st.get("lhs"), int):
+            continue
+        pl = rv.get("pl") if rv["k"] in ("ref", "raw") else (op_place(rv["a"]) if rv["k"] == "use" else None)
+        if pl is None or isinstance(pl, int):
+            continue
+        fs = [f for a, _, f in proj_fields(pl) if a == LST]
+        if fs and st["lhs"] in fd_slice:
+            reads.append((len(dom_s.get(bi, ())), si, fs[-1], st["lhs"], bi))
+    # several reads feeding one array literal: the literal's element order is the order
+    order_s = []
+    arrays = [(bi, si, st["rv"]) for bi, si, st in sb.stmts() if st.get("rv", {}).get("k") == "agg" and st["rv"].get("ak") == "array"]
+    used = set()
+    for bi, si, rv in arrays:
+        ls = [op_local(o) for o in rv["ops"]]
+        seq = []
+        for l in ls:
+            hit = [x for x in reads if x[3] == l or (l is not None and x[3] in sb.slice_back([l])["locals"])]
+            if hit:
+                seq.append(hit[0][2]); used.add(hit[0][3])
+        if len(seq) >= 2:
+            order_s += seq
+    for d, si, f, l, bi in sorted(x for x in reads if x[3] not in used):
+        order_s.append(f)
+    order_s = [f for i, f in enumerate(order_s) if i == 0 or f != order_s[i - 1]]
+    # ---- receiver: windows received_fds[index .. index + len]: the class is the one whose count `len` was read from
+    order_r = []
+    for bi, si, st in sorted(((bi, si, st) for bi, si, st in rb.stmts()), key=lambda x: (len(dom_r.get(x[0], ())), x[1])):
+        rv = st.get("rv")
+        if not (rv and rv["k"] == "agg" and rv.get("adt") == "core::ops::range::Range" and len(rv["ops"]) == 2):
+            continue
+        e = op_local(rv["ops"][1])
+        d = rb.single_def(e) if e is not None else None
+        if not (d and d[2] == "assign" and d[3]["k"] == "bin" and d[3]["op"].startswith("Add")):
+            continue
+        cls = set()
+        for o in (d[3]["a"], d[3]["b"]):
+            l = op_local(o)
+            for _ in range(6):           # look through plain copies
+                dd = rb.single_def(l) if l is not None else None
+                if dd and dd[2] == "assign" and dd[3]["k"] == "use" and op_local(dd[3]["a"]) is not None:
+                    l = op_local(dd[3]["a"])
+                else:
+                    break
+            if l is None or rb.single_def(l) is None:
+                continue                 # the running offset is reassigned; the window length is bound once
+            cls |= {f for a, f in rb.slice_back([l])["fields"] if a == LC}
+        if len(cls) == 1:
+            order_r.append(cls.pop())
+    key = "FD array class order"
+    if not r.require(set(order_s) == set(classes) and set(order_r) == set(classes),
+                     "could not recover the class order (sender %s, receiver %s, classes %s)" % (order_s, order_r, classes)):
+        return
+    if order_s == order_r:
+        r.ok(key, sb.where(sends[0][0]), "sender appends %s, receiver cuts windows %s" % (order_s, order_r))
+    else:
+        r.violation(key, sb.where(sends[0][0]), "send_listeners appends the descriptors in the order %s but receive_listeners cuts the FD array in the order %s: after a hand-over the sockets of these classes are paired with each other's addresses" % (order_s, order_r))
 
 
 def run_thorough(F, chk):
